@@ -394,14 +394,10 @@ func (t *T) IsMatchUnionType(targetT *T) bool {
 			return true
 		}
 
-		for _, tType := range tTypes {
-			if !slices.Contains(targetTypes, tType) {
-				return false
-			}
-		}
-
-		for _, targetType := range targetTypes {
-			if !slices.Contains(tTypes, targetType) {
+		// every variant of the target has to be one of the variants of t
+		// (objects are compared by class, not only by kind)
+		for _, targetVariantT := range targetT.variants {
+			if !t.hasMatchVariant(&targetVariantT) {
 				return false
 			}
 		}
@@ -409,18 +405,22 @@ func (t *T) IsMatchUnionType(targetT *T) bool {
 		return true
 
 	default:
-		for _, variantT := range t.variants {
-			if variantT.IsAnyType() {
-				return true
-			}
+		return t.hasMatchVariant(targetT)
+	}
+}
 
-			if variantT.tType == targetT.tType {
-				return true
-			}
+func (t *T) hasMatchVariant(targetT *T) bool {
+	for _, variantT := range t.variants {
+		if variantT.IsAnyType() {
+			return true
 		}
 
-		return false
+		if variantT.IsMatchType(targetT) {
+			return true
+		}
 	}
+
+	return false
 }
 
 func (t *T) HasDefault() bool {
